@@ -66,6 +66,8 @@ class Token:
     _macro_length: int = 0
     quote: str = ""
     _embeded_data: Any = field(default=None, repr=False)
+    _macro_end: tuple[int, int] | None = field(default=None, repr=False)
+    """(line, col) right after the source text that a macro replaced (set on the last token of an expansion)"""
 
     # def __new__(cls: type["Token"], token_type: TokenType, line: int, col: int, string: str) -> "Token":
     #     return super().__new__(cls)
@@ -95,6 +97,22 @@ class Token:
         )
         # else:
         #     return self._macro_length
+
+    @property
+    def end(self) -> tuple[int, int]:
+        """
+        Position (line, col) right after the last character of the source text this token stands for
+
+        :return: Tuple of line and column
+        """
+        if self._macro_end is not None:
+            return self._macro_end
+        if self.token_type != TokenType.STRING and NEW_LINE in self.string:
+            return (
+                self.line + self.string.count(NEW_LINE),
+                len(self.string) - self.string.rfind(NEW_LINE),
+            )
+        return self.line, self.col + self.length
 
     def add_quotation(self) -> str:
         """Get self.string including quotation mark (Raise error when the token_type is not TokenType.STRING)"""
@@ -312,7 +330,10 @@ class Tokenizer:
             macro_factory, arg_count = header.macros[new_token.string]
             if arg_count == 0:
                 self.keywords.extend(
-                    macro_factory([], self.token_pos.line, self.token_pos.col)
+                    self.__end_macro(
+                        macro_factory([], self.token_pos.line, self.token_pos.col),
+                        new_token,
+                    )
                 )
             else:
                 self.macro_factory = (
@@ -354,13 +375,41 @@ class Tokenizer:
                     new_token,
                     self,
                 )
-            self.keywords.extend(macro_factory(args, token_pos.line, token_pos.col))
+            self.keywords.extend(
+                self.__end_macro(
+                    macro_factory(args, token_pos.line, token_pos.col), new_token
+                )
+            )
         else:
             self.keywords.append(new_token)
 
         self.token_str = ""
         self.token_pos = None
         self.state = None
+
+    @staticmethod
+    def __end_macro(tokens: list[Token], replaced_token: Token) -> list[Token]:
+        """
+        Mark the last token of a macro expansion as ending where the replaced source text ends,
+        so that whatever follows is connected to it exactly when it was connected to the macro in the source
+
+        :param tokens: Tokens made by a macro factory
+        :param replaced_token: Last token of the replaced source text (the macro's name or its argument bracket)
+        :return: tokens
+        """
+        if tokens:
+            last = tokens[-1]
+            tokens[-1] = Token(
+                last.token_type,
+                last.line,
+                last.col,
+                last.string,
+                last._macro_length,
+                last.quote,
+                last._embeded_data,
+                replaced_token.end,
+            )
+        return tokens
 
     def append_keywords(self) -> None:
         """
